@@ -605,6 +605,13 @@ _public_ int m_mod_set_tokenbucket(m_mod_t *mod, uint32_t rate, uint64_t burst) 
     mod->tb.timer.ns = BILLION / rate;
     int ret = m_mod_src_register_tmr(mod, &mod->tb.timer, M_SRC_INTERNAL | M_SRC_PRIO_HIGH, &mod->tb);
     mod->tb.tokens = burst;
+    if (ret != 0) {
+        /* No refill timer, no bucket: the module must not be left throttled without ever being refilled */
+        mod->tb.rate = 0;
+        mod->tb.burst = UINT64_MAX;
+        mod->tb.tokens = UINT64_MAX;
+        memset(&mod->tb.timer, 0, sizeof(mod->tb.timer));
+    }
     return ret;
 }
 
